@@ -180,6 +180,24 @@ def _builtin(ex, st, c, callee, args, fn):
         if isinstance(a, Struct) and isinstance(b, Struct) and len(a.f) == len(b.f) and all(isinstance(x, z3.ExprRef) for x in a.f + b.f):
             e = z3.And([x == y for x, y in zip(a.f, b.f)])
             return e if m.group(3) == 'eq' else z3.Not(e)
+    m = re.match(r'^<(?:libc::)?(?:unix::)?(timespec|timeval) as PartialEq>::(eq|ne)$', c)
+    if m and len(args) == 2:
+        # libc's derived PartialEq: field by field
+        from .values import Ptr as _Ptr
+        vals = []
+        for a_ in args:
+            if isinstance(a_, _Ptr) and ex.deref_hook is not None:
+                # a timespec field of the shared record
+                try:
+                    vals.append(ex.deref_hook(ex, st, a_, whole=False))
+                except TypeError:
+                    vals.append(ex.deref_hook(ex, st, a_))
+            else:
+                vals.append(_val(ex, st, a_))
+        a, b = vals
+        if isinstance(a, Struct) and isinstance(b, Struct) and len(a.f) == len(b.f) and all(isinstance(x, z3.ExprRef) for x in a.f + b.f):
+            e = z3.And([x == y for x, y in zip(a.f, b.f)])
+            return e if m.group(2) == 'eq' else z3.Not(e)
     m = re.match(r'^<((?:std::option::|core::option::)?Option<.+>|(?:std::time::)?(?:SystemTime|Instant|Duration)) as PartialEq>::(eq|ne)$', c)
     if m:
         # std types whose PartialEq is derived: structural equality of the values (Option<T> for such T, SystemTime, Instant, Duration)
@@ -481,6 +499,14 @@ def _builtin(ex, st, c, callee, args, fn):
             if 'Ok' not in v.p:
                 return args[1]
             return ite(d == 0, v.p['Ok'].f[0], args[1])
+        if k == 'unwrap_or_default':
+            mt = re.search(r'Result::<\s*([^,<>]+(?:<[^<>]*>)?)\s*,', callee)
+            tname = mt.group(1).strip().split('::')[-1] if mt else ''
+            dflt = Struct([z3.IntVal(0)]) if tname == 'Duration' else z3.IntVal(0) if tname in INTTY else z3.BoolVal(False) if tname == 'bool' else None
+            if dflt is not None:
+                if 'Ok' not in v.p:
+                    return dflt
+                return ite(d == 0, v.p['Ok'].f[0], dflt)
         if k == 'map_err' and len(args) == 2:
             return _call_closure_on(ex, st, fn, v, 'Err', args[1], callee, wrap=lambda x: Enum(1, {'Err': Struct([x])}))
         if k == 'map' and len(args) == 2:
